@@ -12,11 +12,30 @@ def check(ctx, ans, want, sig, cls, key, line=None, nontrivial=True, **detail):
     if ans == want:
         ctx.ok(cls, key, nontrivial)
         return True
-    if ans.startswith('bad unknown op') and getattr(ctx, 'hooks', 'lines') == 'none':
-        ctx.count('hook-unavailable')        # the executor was built without the cfg hooks (they do not compile against this tree)
+    if hook_unavailable(ctx, ans):
         return True
     ctx.fail(sig, '%s: observed %r, model expects %r%s' % (cls, ans[:200], want[:200], (' for ' + line[:300]) if line else ''),
              observed=ans, expected=want, line=line, **detail)
+    return False
+
+
+def hook_unavailable(ctx, ans, line=None, dead=None):
+    """True if this answer only says that the op belongs to a hook group that does not compile against the tree under test (the
+    executor was built without it), or that it uses a register such an op should have defined. `dead`: set of register names,
+    maintained across the lines of one program."""
+    if getattr(ctx, 'hooks', 'lines') not in ('none', 'partial'):
+        return False
+    toks = line.split() if line else []
+    if ans.startswith('bad unknown op'):
+        if dead is not None and toks and toks[0] != '_':
+            dead.add(toks[0])
+        ctx.count('hook-unavailable' + (':' + toks[1] if len(toks) > 1 else ''))
+        return True
+    if dead and ans.startswith('bad noreg') and any(t[1:] in dead for t in toks[2:] if t.startswith('$')):
+        if toks[0] != '_':
+            dead.add(toks[0])
+        ctx.count('hook-unavailable:dependent')
+        return True
     return False
 
 
